@@ -131,6 +131,61 @@ def reentrant_cases(rng, n, style=None, tag='re'):
     return cases
 
 
+def gen_wrapsof(r, idx):
+    """a decorated callable that took over name / docstring / __dict__ of an ALREADY decorated one with functools.wraps but has a body
+    of its own (an overriding method written `@wraps(Base.m)`, a variant `@pedantic @wraps(guarded)`): it must be guarded like any other"""
+    ret = r.choice([' -> int', ' -> int', ' -> None', ' -> str'])
+    sig = r.choice(COMPLETE_SIGS)
+    form = r.choice(['plain', 'plain', 'require_kwargs', 'inst_class', 'inst_direct'])
+    if form in ('plain', 'require_kwargs'):
+        deco = '@pedantic' if form == 'plain' else '@require_kwargs'
+        def mod(dec):
+            d = dec + '\n' if dec else ''
+            return (f'{d}def w{idx}({sig}){ret}:\n    """ doc of w """\n    return _BODY({idx * 2}, locals())\n'
+                    f'{d}@wraps(w{idx})\ndef v{idx}({sig}){ret}:\n    return _BODY({idx * 2 + 1}, locals())\n')
+        return {'src': mod(deco), 'twin': mod(None), 'access': ('mod', f'v{idx}'), 'kind': form}
+    first = 'self' + (', ' if sig else '')
+    def cls(cdeco, mdeco):
+        return (f'{cdeco}class B{idx}:\n{mdeco}    def m({first}{sig}){ret}:\n        """ doc of B.m """\n        return _BODY({idx * 2}, locals())\n'
+                f'{cdeco}class D{idx}(B{idx}):\n{mdeco}    @wraps(B{idx}.m)\n    def m({first}{sig}){ret}:\n        return _BODY({idx * 2 + 1}, locals())\n')
+    cdeco, mdeco = ('@pedantic_class\n', '') if form == 'inst_class' else ('', '    @pedantic\n')
+    return {'src': cls(cdeco, mdeco), 'twin': cls('', ''), 'access': ('inst', f'D{idx}', 'm'), 'kind': form}
+
+
+def wrapsof_cases(rng, n, style=None, tag='wo', calls_per=2):
+    cases = []
+    for idx in range(n):
+        S = gen_wrapsof(rng, idx)
+        P = C.OneProgram(S['src'], S['twin'], f'{tag}{idx}_{rng.randrange(10**9)}')
+        try:
+            F = {'flavour': 'sync', 'kind': S['kind']}
+            acc = S['access']
+            raw, mode = P.raw_of(F, acc)
+            if raw is None:
+                continue
+            try:
+                desc = C.describe(raw, mode)
+            except ValueError:
+                continue
+            for _ in range(calls_per):
+                st = style if style is not None else rng.choice(['kw', 'kw', 'pos1', 'posall'])
+                pos, kw = C.gen_call(rng, F, desc, st, bad_range=3)
+                body = C.gen_body(rng, desc)
+                impl = C.execute(P, F, acc, pos, kw, body, 'full')
+                implicit = C.implicit_of(S['kind'], acc)
+                truth = {'realStatic': False, 'realSetter': False, 'realPedantic': True, 'implicit': implicit}
+                mbody = ['raises', 0] if body[0] == 'raises' else (['ret', ["inst", K.IDX[K.U]]] if body[0] == 'retzoo' else body)
+                cases.append({'m': 'calllayer',
+                              'c': {'env': C.env_for(P, 'full', S['src']), 'fn': desc, 'truth': truth,
+                                    'args': ([["inst", K.IDX[K.U]]] if implicit else []) + pos, 'kw': kw, 'body': mbody},
+                              'x': {'access': list(acc), 'kind': S['kind'], 'flavour': 'sync', 'pos': pos, 'kwv': kw, 'body': body, 'ctxmode': 'full',
+                                    'src': S['src'], 'twin': S['twin'], 'implicit': implicit, 'needle': None, 'history': [],
+                                    'scenario': 'wrapsof', '_impl': impl}})
+        finally:
+            P.close()
+    return cases
+
+
 def run_impl(cases):
     """C.run_impl_calls for ordinary cases; a case with x['nested_in'] is executed inside its enclosing call"""
     out = [None] * len(cases)
